@@ -206,3 +206,28 @@ Proof.
   pose proof (wsum_le (ph (fb (finit c ext d0))) (seq 0 (g_n g))) as Hw. rewrite seq_length in Hw.
   unfold measure in H. lia.
 Qed.
+
+(* the retry clause in one statement at the level of the spec system: whatever a first call left (any accepted
+   trace: failed, cancelled, abandoned), a fault-free second call that has not returned yet can be continued,
+   fault-free and finitely, to the successful return, and then everything reachable from its roots is there *)
+Theorem frerun_completes (g : graph) (c1 c2 : cfg) (ext1 ext2 : bool) (d0 : list node) (rank : node -> nat)
+        tr1 fs1 tr2 fs2 :
+  (forall n x, In x (succ' g n) -> rank x < rank n) ->
+  1 <= c_K c2 -> c_root c2 < g_n g -> (forall x, In x (c_xroots c2) -> x < g_n g) ->
+  (forall n x, n < g_n g -> In x (succ' g n) -> x < g_n g) ->
+  c_mount c2 = false -> (ext2 = true -> forall n, ~ In (c_root c2) (succ' g n)) ->
+  ext_ok g c1 ext1 d0 -> closed_nodes g d0 -> mt_consistent g ->
+  faccepts g c1 ext1 d0 tr1 = Some fs1 ->
+  ext_ok g c2 ext2 (dst (fb fs1)) ->
+  faccepts g c2 ext2 (dst (fb fs1)) tr2 = Some fs2 -> existsb is_fault tr2 = false -> returned (fb fs2) = None ->
+  exists tr3 fs3, existsb is_fault tr3 = false /\
+    faccepts g c2 ext2 (dst (fb fs1)) (tr2 ++ tr3) = Some fs3 /\ returned (fb fs3) = Some true /\
+    forall r n, is_call_root g c2 ext2 r -> reach g r n -> has g (dst (fb fs3)) n = true.
+Proof.
+  intros Hrk HK Hroot Hxr Hsu Hnm Hvp Hx1 Hc Hmt Ha1 Hx2 Ha2 Hnf Hr.
+  destruct (fnofault_completes g c2 ext2 (dst (fb fs1)) rank Hrk HK Hroot Hxr Hsu Hnm Hvp tr2 fs2 Hx2 Ha2 Hnf Hr)
+    as [tr3 [fs3 [Hnf3 [Ha3 Hret]]]].
+  exists tr3. exists fs3. split; [exact Hnf3|]. split; [exact Ha3|]. split; [exact Hret|].
+  apply (fclosure g c2 ext2 (dst (fb fs1)) (tr2 ++ tr3) fs3 Hx2); auto.
+  exact (fclosed_always g c1 ext1 d0 tr1 fs1 Hx1 Hc Ha1).
+Qed.
